@@ -254,7 +254,7 @@ class Node(object):
             a = a[:-1]
         if which in ("nscat", "nsld"):
             s, density, wl = a
-            f = self._formula(tbl, s)
+            f = s if opts.get("str") and tbl == "public" else self._formula(tbl, s)
             kw = {"natural_density" if opts.get("natural") else "density": density}
             if opts.get("vector"):
                 import numpy as np
@@ -268,7 +268,7 @@ class Node(object):
             return canon(fn(f, **kw))
         if which == "xsld":
             s, density, en = a
-            f = self._formula(tbl, s)
+            f = s if opts.get("str") and tbl == "public" else self._formula(tbl, s)
             kw = {"natural_density" if opts.get("natural") else "density": density}
             if opts.get("wavelength"):
                 xsf = self.module("periodictable.xsf")
@@ -304,7 +304,10 @@ class Node(object):
             (s,) = a
             nsf = self.module("periodictable.nsf")
             kw = {} if tbl == "public" else {"table": t}
-            return canon(nsf.D2O_match(self._formula(tbl, s), **kw))
+            for k in ("wavelength", "energy"):
+                if k in opts:
+                    kw[k] = opts[k]
+            return canon(nsf.D2O_match(s if opts.get("str") else self._formula(tbl, s), **kw))
         if which == "fasta_const":
             fasta = self.module("periodictable.fasta")
             return canon([fasta.H2O_SLD, fasta.D2O_SLD])
@@ -353,7 +356,11 @@ class Node(object):
             (s,) = a
             nsf = self.module("periodictable.nsf")
             kw = {} if tbl == "public" else {"table": t}
-            return canon(nsf.D2O_sld(self._formula(tbl, s), volume_fraction=0.3, D2O_fraction=0.4, **kw))
+            for k in ("wavelength", "energy"):
+                if k in opts:
+                    kw[k] = opts[k]
+            return canon(nsf.D2O_sld(s if opts.get("str") else self._formula(tbl, s),
+                                     volume_fraction=0.3, D2O_fraction=0.4, **kw))
         if which == "fasta_seq":
             kind, seq = a
             fasta = self.module("periodictable.fasta")
@@ -596,6 +603,29 @@ def serve(rfd, wfd, repo, extra_mixins=()):
                     out = node.run_event(ev)
                     res.append((out, node.abstract() if want_abs else None))
                 send(wfd, ("ok", res))
+            elif op == "fork_eval":
+                # evaluate events in a throw-away fork of this node, so that this node (the
+                # reference replica) never accumulates state from the expressions it is asked about
+                r, w = os.pipe()
+                pid = os.fork()
+                if pid == 0:
+                    try:
+                        os.close(r)
+                        res = [node.run_event(ev) for ev in cmd[1]]
+                        send(w, res)
+                    finally:
+                        os._exit(0)
+                os.close(w)
+                try:
+                    res = recv(r)
+                except EOFError:
+                    res = None
+                os.close(r)
+                os.waitpid(pid, 0)
+                if res is None:
+                    send(wfd, ("fail", "fork_eval child died"))
+                else:
+                    send(wfd, ("ok", res))
             elif op == "digest":
                 send(wfd, ("ok", node.digest(*cmd[1:])))
             elif op == "abstract":
